@@ -13,7 +13,7 @@ from vlib import coqlist, zlit
 
 PART = "affine"
 FUEL = 400
-KNOWN_ASSERT = "canon_sum_folds_to_leaf"
+KNOWN_ASSERT = None   # F22 (canon_sum_folds_to_leaf) is repaired in /repo: an AssertionError is a new failure
 
 
 def generate(ctx):
